@@ -90,6 +90,57 @@ LABEL_POOL = [0, 1, 2, "A", "B", "foo", (1, 2), ("a", 0), None, 3.5, True, froze
               False, 0.0, 1.0, 2.0, "a", (), (None,), 10**20]
 
 
+def tag17(x):
+    """tagged() of common.py extended by numpy scalars (labels equal by ==/hash to a Python number but distinct objects)"""
+    if isinstance(x, np.bool_):
+        return ["np_bool", bool(x)]
+    if isinstance(x, np.integer):
+        return ["np_int", int(x)]
+    if isinstance(x, np.floating):
+        return ["np_float", float(x)]
+    return tagged(x)
+
+
+def untag17(t):
+    """a FRESH object per call where Python allows it (tuples, frozensets, numpy scalars): labels that are equal by == but
+    distinct objects are the normal case in every call the harness makes"""
+    if t[0] == "np_bool":
+        return np.bool_(t[1])
+    if t[0] == "np_int":
+        return np.int64(t[1])
+    if t[0] == "np_float":
+        return np.float64(t[1])
+    return untag(t)
+
+
+def clone_equal(l):
+    """an object of another type that is the same dict key (same hash, ==): numpy scalar for a Python number"""
+    if isinstance(l, bool):
+        return np.bool_(l)
+    if isinstance(l, int) and abs(l) < 2**62:
+        return np.int64(l)
+    if isinstance(l, float):
+        return np.float64(l)
+    return l
+
+
+def dict_key_eq(a, b):
+    """Python's dict-key equality (hash equal and (identical or ==)), decided by a dict itself"""
+    return len({a: None, b: None}) == 1
+
+
+def interning_monitor(objs, ids):
+    """(contract premise of c17_interning_contract, equivalence hypotheses of c17_interner_sound) on the objects of one call:
+    ids[i] == ids[j]  <->  objs[i], objs[j] are the same dict key;   dict-key equality is reflexive, symmetric, transitive"""
+    m = len(objs)
+    eq = [[dict_key_eq(objs[i], objs[j]) for j in range(m)] for i in range(m)]
+    contract = all((ids[i] == ids[j]) == eq[i][j] for i in range(m) for j in range(m))
+    equiv = all(eq[i][i] for i in range(m)) and all(eq[i][j] == eq[j][i] for i in range(m) for j in range(m))
+    if equiv:  # given reflexivity and symmetry, transitivity <=> equal objects have equal rows
+        equiv = all(eq[i] == eq[j] for i in range(m) for j in range(m) if eq[i][j])
+    return contract, equiv
+
+
 def outcome(r, conv):
     """('ok', v) -> ['ok', conv(v)];  ('refused'|'crashed', msg) -> [status, msg]; a conv failure is recorded, not raised"""
     if r[0] != "ok":
@@ -185,9 +236,21 @@ def gen_restrict(rng, w, cases, it):
 def call_decompose(case):
     pl = mk_plist(case["n"], case["paulis"])
     arg = list(pl) if case["aslist"] else pl
-    labels = [untag(t) for t in case["labels"]]
+    labels = [untag17(t) for t in case["labels"]]
     r = call_canon(decompose_observables, arg, labels)
-    case["impl"] = outcome(r, lambda d: [[tagged(l), canon_plist(v)] for l, v in d.items()])
+    case["impl"] = outcome(r, lambda d: [[tag17(l), canon_plist(v)] for l, v in d.items()])
+    # the glue the model states (Model/ObservablesExt.v): ids by first appearance = dict-key classes; a dict keeps the FIRST key object
+    intern = Interner()
+    ids = [intern(l) for l in labels]
+    contract, equiv = interning_monitor(labels, ids)
+    first = True
+    if r[0] == "ok" and isinstance(r[1], dict):
+        firsts = {}
+        for l in labels:
+            firsts.setdefault(l, l)
+        first = all(any(kk is f for f in firsts.values()) for kk in r[1].keys())
+    case["glue"] = dict(interning_is_dict_key_equality=bool(contract), dict_key_equality_is_equivalence=bool(equiv),
+                        dict_keeps_first_key_object=bool(first))
     return case
 
 
@@ -211,15 +274,20 @@ def gen_decompose(rng, w, cases, it):
         labels = [labels[i] for i in rng.permutation(len(labels))]
     else:
         labels = [pool[int(rng.integers(0, nl))] for _ in range(nlab)]
+    # equal-as-dict-key but distinct objects of another type (numpy scalars); tuples/frozensets are rebuilt per position by untag17
+    labels = [clone_equal(l) if rng.integers(0, 4) == 0 else l for l in labels]
     k = rand_k(rng, 4)
     cin = rand_canon(rng, n, k)
     aslist = bool(rng.integers(0, 4) == 0)
     intern = Interner()
     lab_ids = [intern(l) for l in labels]
-    case = dict(kind="decompose", n=n, labels=[tagged(l) for l in labels], paulis=[[p, l] for p, l in cin], aslist=aslist)
+    case = dict(kind="decompose", n=n, labels=[tag17(l) for l in labels], paulis=[[p, l] for p, l in cin], aslist=aslist)
     call_decompose(case)
     o = case["impl"]
-    exp = res_of(o, lambda v: [(intern(untag(t)), [coq_pauli(c) for c in pv]) for t, pv in v])
+    for name, okv in case["glue"].items():
+        w.contract(name, okv)
+    w.count("decompose.label_objects", "numpy scalar among labels" if any(t[0].startswith("np_") for t in case["labels"]) else "python only")
+    exp = res_of(o, lambda v: [(intern(untag17(t)), [coq_pauli(c) for c in pv]) for t, pv in v])
     w.add("decompose", "chk_decompose", (aslist, n, lab_ids, [coq_pauli(c) for c in cin], exp), case,
           nontrivial=(len(set(lab_ids)) > 1 and k > 0 and o[0] == "ok"))
     cases.append(case)
@@ -350,6 +418,8 @@ def run_expand(case):
     ids = Interner()
     case["oq"] = [ids(q) for q in oc.qubits]
     case["fq"] = [ids(q) for q in fc.qubits]
+    contract, equiv = interning_monitor(list(oc.qubits) + list(fc.qubits), case["oq"] + case["fq"])
+    case["glue"] = dict(interning_is_dict_key_equality=bool(contract), dict_key_equality_is_equivalence=bool(equiv))
     case["shape"] = dict(o_clbits=oc.num_clbits, f_clbits=fc.num_clbits, o_anc=oc.num_ancillas, f_anc=fc.num_ancillas,
                          o_qregs=len(oc.qregs), f_qregs=len(fc.qregs), o_cregs=len(oc.cregs), f_cregs=len(fc.cregs),
                          o_width=oc.width(), f_width=fc.width())
@@ -552,6 +622,8 @@ def gen_expand(rng, w, cases, it):
             return  # the transform itself misbehaved on this marker pattern: that is C03's business
     o, info = case["impl"], case["refusal"]
     oq, fq, sh = case["oq"], case["fq"], case["shape"]
+    for name, okv in case["glue"].items():
+        w.contract(name, okv)
     exp = res_of(o, lambda v: [coq_pauli(c) for c in v])
     if o[0] == "refused" and info["reason"] is None:
         why = Opt(some=False)  # a ValueError that is not one of the two documented refusals of the package
@@ -624,7 +696,7 @@ def generate(rng, tier, outdir):
         rule="random Pauli lists (all phases; 0..5 rows incl. the empty list) on 0..8 qubits (0 and 8 over-represented). "
         "restrict: random subsets/orders/full permutations, repeats, out-of-range stream; PauliList and list[Pauli] paths; qubits "
         "given as list/tuple/range/ndarray/numpy ints. decompose: 1..8 distinct labels from a pool of exotic hashables (incl. "
-        "hash-equal False/0/0.0, True/1/1.0), both paths, len(labels) <, ==, > num_qubits. expand: original circuits from registers "
+        "hash-equal False/0/0.0, True/1/1.0, numpy scalars equal to Python numbers, tuples/frozensets rebuilt per position), both paths, len(labels) <, ==, > num_qubits. expand: original circuits from registers "
         "owning their bits, ancilla registers, loose (ancilla) bits, overlapping registers, classical bits/registers; final circuits "
         "from cut_wires / _transform_cuts_to_moves / both on random marker patterns, or random interleavings of up to 5 fresh qubits "
         "across loose bits, several registers, re-used registers, overlapping registers, classical bits; the same circuit object; "
@@ -658,7 +730,7 @@ def judge(case):
         ok = got[0] == "ok" and _norm(got[1]) == want
         return dict(violates=not ok, detail=f"restriction of {ps} to qubits {qs}: want {want} got {got}")
     if k == "decompose":
-        labels = [untag(t) for t in case["labels"]]
+        labels = [untag17(t) for t in case["labels"]]
         n, ps = case["n"], case["paulis"]
         if len(labels) != n:
             return dict(violates=False, detail="labels do not label exactly the qubits (not a partition of them); property silent")
@@ -669,7 +741,7 @@ def judge(case):
             return dict(violates=True, detail=f"partition {groups}: call did not succeed: {got}")
         gd = {}
         for t, v in got[1]:
-            gd[untag(t)] = _norm(v)
+            gd[untag17(t)] = _norm(v)
         ok = set(gd.keys()) == set(groups.keys()) and len(gd) == len(got[1])
         if ok:
             for l, qs in groups.items():
